@@ -64,6 +64,9 @@ impl DynamicConstraintsEncoder {
     }
 
     pub fn new_argument<T: LabelType>(&mut self, af: &mut AAFramework<T>, label: T) {
+        if af.argument_set().get_argument(&label).is_ok() {
+            return;
+        }
         af.new_argument(label);
         if self.next_dummy_arg_var >= self.n_arg_vars {
             self.need_to_encode = true;
